@@ -55,6 +55,8 @@ enum Upd {
     Set(i64),
     Add(i64),
     Rec(i64),
+    /// `Histogram::record_many(v, n)`: the default method, n × `record` (n = 0: no update at all)
+    RecMany(i64, usize),
 }
 
 impl Upd {
@@ -65,6 +67,7 @@ impl Upd {
             Upd::Set(v) => format!("set:{}", v),
             Upd::Add(v) => format!("add:{}", v),
             Upd::Rec(v) => format!("rec:{}", v),
+            Upd::RecMany(v, n) => format!("recmany:{}x{}", v, n),
         }
     }
 }
@@ -94,6 +97,10 @@ impl Tally {
             (Tally::H(c, s), Upd::Rec(v)) => {
                 *c += 1;
                 *s += v
+            }
+            (Tally::H(c, s), Upd::RecMany(v, n)) => {
+                *c += n as u64;
+                *s += v * n as i64
             }
             _ => unreachable!(),
         }
@@ -149,7 +156,15 @@ impl Oracle {
         self.register(id);
         let l = self.life.get_mut(&id).unwrap();
         l.tally.apply(u);
-        l.updates += 1;
+        if let Upd::RecMany(_, n) = u {
+            // n single `record`s; none at all for n = 0 (the metric is registered, not updated)
+            l.updates += n as u64;
+            if n == 0 {
+                return;
+            }
+        } else {
+            l.updates += 1;
+        }
         l.seen_since_change.clear();
         l.changed_since_obs = true;
     }
@@ -255,6 +270,8 @@ enum GOp {
     Upd(usize, usize, Upd),
     Adv(u64),
     Observe,
+    /// `PrometheusHandle::run_upkeep` (stream B only; stream A has nothing to drain into)
+    Upkeep,
 }
 
 #[derive(Clone, Debug)]
@@ -281,7 +298,13 @@ fn gen_upd(r: &mut Rng, kind: usize) -> Upd {
                 Upd::Add(*r.pick(&[0i64, 0, 1, -1, 10]))
             }
         }
-        _ => Upd::Rec(*r.pick(&[0i64, 1, -2, 1000])),
+        _ => {
+            if r.chance(1, 4) {
+                Upd::RecMany(*r.pick(&[0i64, 1, -2, 1000]), *r.pick(&[0usize, 1, 3]))
+            } else {
+                Upd::Rec(*r.pick(&[0i64, 1, -2, 1000]))
+            }
+        }
     }
 }
 
@@ -293,6 +316,10 @@ fn time_steps(timeout: Option<u64>) -> Vec<u64> {
 }
 
 fn gen_case(r: &mut Rng, nkeys: usize, kinds: &[usize]) -> Case {
+    gen_case_w(r, nkeys, kinds, 0)
+}
+
+fn gen_case_w(r: &mut Rng, nkeys: usize, kinds: &[usize], upkeep_weight: usize) -> Case {
     let mask = *r.pick(&[0u8, 1, 2, 4, 3, 5, 6, 7, 7, 7, 7, 3, 6]);
     let timeout = if r.chance(1, 8) { None } else { Some(*r.pick(&[0u64, 1, 2, 3, 10, 10, 1000, 1_000_000_000])) };
     let steps = time_steps(timeout);
@@ -303,11 +330,12 @@ fn gen_case(r: &mut Rng, nkeys: usize, kinds: &[usize]) -> Case {
     for _ in 0..nops {
         let kind = *r.pick(kinds);
         let key = r.below(nk);
-        match r.weighted(&[1, 5, 5, 5]) {
+        match r.weighted(&[1, 5, 5, 5, upkeep_weight]) {
             0 => ops.push(GOp::Reg(kind, key)),
             1 => ops.push(GOp::Upd(kind, key, gen_upd(r, kind))),
             2 => ops.push(GOp::Adv(*r.pick(&steps))),
-            _ => ops.push(GOp::Observe),
+            3 => ops.push(GOp::Observe),
+            _ => ops.push(GOp::Upkeep),
         }
     }
     ops.push(GOp::Observe);
@@ -485,6 +513,7 @@ fn run_registry_case(out: &mut Out, c: &Case) {
                         }
                     }),
                     (2, Upd::Rec(v)) => registry.get_or_create_histogram(&rkeys[*i], |h| h.record(*v as f64)),
+                    (2, Upd::RecMany(v, n)) => registry.get_or_create_histogram(&rkeys[*i], |h| h.record_many(*v as f64, *n)),
                     _ => unreachable!(),
                 }
                 let before = oracle.life.get(&(*kind, *i)).map(|l| l.tally.clone());
@@ -493,7 +522,17 @@ fn run_registry_case(out: &mut Out, c: &Case) {
                 if before == after && !fresh {
                     out.count("op.upd.value-preserving");
                 }
-                out.op(&format!("recency upd {} {} {}", KINDS[*kind], hexs(&keys[*i]), up.tok()), "ok");
+                if let Upd::RecMany(v, n) = up {
+                    // the `Recency` model has no `record_many`: by the trait's default method it is n × `record`
+                    // on a registered histogram (`Generational` must not override it without bumping the generation)
+                    out.op(&format!("recency reg h {}", hexs(&keys[*i])), "ok");
+                    for _ in 0..*n {
+                        out.op(&format!("recency upd h {} rec:{}", hexs(&keys[*i]), v), "ok");
+                    }
+                    out.count(&format!("op.upd.record_many.n={}", n));
+                } else {
+                    out.op(&format!("recency upd {} {} {}", KINDS[*kind], hexs(&keys[*i]), up.tok()), "ok");
+                }
                 out.count("op.upd");
                 // generation and value right after the update (a re-created metric starts from zero)
                 let got = match kind {
@@ -542,6 +581,7 @@ fn run_registry_case(out: &mut Out, c: &Case) {
                     }
                 ));
             }
+            GOp::Upkeep => {}
             GOp::Observe => {
                 observes += 1;
                 // the loop of `Inner::get_recent_metrics`
@@ -613,82 +653,154 @@ fn hist_tok(samples: &[f64]) -> String {
 
 // ---------------------------------------------------------------------------------------------
 // stream B: the Prometheus exporter
+//
+// Model: `promidle …` (Model/PromIdle.lean = Model/Recency + the exporter's `distributions` map keyed by
+// `key_to_parts(key, Some(global_labels))`).  Configuration space: global labels (none / one / two, one of them
+// overridden by a key's own label), keys with labels, two series in one family, `record_many`, `run_upkeep`.
 
-/// in the exporter a name has one kind (one family per name): the key pool is per kind
-fn prom_name(kind: usize, i: usize) -> String {
-    format!("{}_{}", ["ctr", "gge", "hst"][kind], ["same", "a", "b", "z9"][i])
+/// in the exporter a name has one kind (one family per name): the key pool is per kind.
+/// i = 0: no labels; 1, 2: two series of one family; 3: a label that overrides the global label `env`
+fn prom_key(kind: usize, i: usize) -> (String, Vec<(String, String)>) {
+    let p = ["ctr", "gge", "hst"][kind];
+    let l = |k: &str, v: &str| (k.to_string(), v.to_string());
+    match i {
+        0 => (format!("{}_same", p), vec![]),
+        1 => (format!("{}_a", p), vec![l("code", "200")]),
+        2 => (format!("{}_a", p), vec![l("code", "404")]),
+        _ => (format!("{}_b", p), vec![l("env", "k")]),
+    }
 }
 
-fn run_prom_case(out: &mut Out, c: &Case, buckets: bool) {
-    // model keys: index = kind * 4 + i
-    let keys: Vec<String> = (0..12).map(|j| prom_name(j / 4, j % 4)).collect();
-    let (clock, mock) = Clock::mock();
-    let mut b = PrometheusBuilder::new().idle_timeout(mask_of(c.mask), c.timeout.map(Duration::from_nanos));
-    if buckets {
-        b = b.set_buckets(&[0.0, 10.0]).unwrap();
+const GLOBALS: [&[(&str, &str)]; 4] = [&[], &[("env", "prod")], &[("env", "prod"), ("dc", "eu1")], &[("dc", "eu1")]];
+
+fn key_display(name: &str, labels: &[(String, String)]) -> String {
+    if labels.is_empty() {
+        name.to_string()
+    } else {
+        format!("{}{{{}}}", name, labels.iter().map(|(k, v)| format!("{}={}", k, v)).collect::<Vec<_>>().join(","))
     }
-    let rec = b.verif_build_with_clock(clock);
-    let handle = rec.handle();
-    let mut oracle = Oracle::new(c.mask, c.timeout);
-    // `idle_timeout(mask, None)` stores mask NONE; for the model that is the same as "no timeout"
-    model_new(out, c);
-    out.count(if buckets { "prom.histogram" } else { "prom.summary" });
-    let mut observes = 0;
-    let drops_before = out.counters.get("oracle.dropped").cloned().unwrap_or(0);
-    for op in &c.ops {
-        match op {
-            GOp::Reg(kind, i) => {
-                let key = Key::from_name(prom_name(*kind, *i));
-                match kind {
-                    0 => drop(rec.register_counter(&key, &META)),
-                    1 => drop(rec.register_gauge(&key, &META)),
-                    _ => drop(rec.register_histogram(&key, &META)),
+}
+
+/// what the exposition text must carry for a key: global labels first, overridden in place by the key's own
+/// (written from the builder's documentation of `add_global_label`, not from `key_to_parts`)
+fn expected_labels(globals: &[(&str, &str)], labels: &[(String, String)]) -> Vec<(String, String)> {
+    let mut m: Vec<(String, String)> = globals.iter().map(|(k, v)| (k.to_string(), v.to_string())).collect();
+    for (k, v) in labels {
+        match m.iter_mut().find(|(k2, _)| k2 == k) {
+            Some(e) => e.1 = v.clone(),
+            None => m.push((k.clone(), v.clone())),
+        }
+    }
+    m
+}
+
+fn label_text(ls: &[(String, String)]) -> String {
+    ls.iter().map(|(k, v)| format!("{}=\"{}\"", k, v)).collect::<Vec<_>>().join(",")
+}
+
+fn pairs_tok(ls: &[(String, String)]) -> String {
+    list(ls.iter().map(|(k, v)| format!("{}:{}", hexs(k), hexs(v))))
+}
+
+struct PromKeys {
+    /// model key ids (display text), index = kind * 4 + i
+    ids: Vec<String>,
+    keys: Vec<Key>,
+    /// (family name, label text) each key must be rendered under
+    shown_as: Vec<(String, String)>,
+}
+
+fn prom_keys(out: &mut Out, pool: &[(usize, String, Vec<(String, String)>)], globals: &[(&str, &str)]) -> PromKeys {
+    let mut pk = PromKeys { ids: vec![], keys: vec![], shown_as: vec![] };
+    for (_, name, labels) in pool {
+        let id = key_display(name, labels);
+        out.op(&format!("promidle key {} {} {}", hexs(&id), hexs(name), pairs_tok(labels)), "ok");
+        pk.ids.push(id);
+        pk.keys.push(Key::from_parts(name.clone(), labels.iter().map(|(k, v)| Label::new(k.clone(), v.clone())).collect::<Vec<_>>()));
+        let san: String = name.chars().map(|c| if c.is_ascii_alphanumeric() || c == '_' || c == ':' { c } else { '_' }).collect();
+        pk.shown_as.push((san, label_text(&expected_labels(globals, labels))));
+    }
+    pk
+}
+
+fn prom_model_new(out: &mut Out, c: &Case, globals: &[(&str, &str)]) {
+    let g: Vec<(String, String)> = globals.iter().map(|(k, v)| (k.to_string(), v.to_string())).collect();
+    out.op(
+        &format!(
+            "promidle new {} {} {}",
+            c.mask,
+            match c.timeout {
+                Some(t) => t.to_string(),
+                None => "~".into(),
+            },
+            pairs_tok(&g)
+        ),
+        "ok",
+    );
+    out.count(&format!("cfg.mask={}", c.mask));
+    out.count(match c.timeout {
+        Some(_) => "cfg.timeout=some",
+        None => "cfg.timeout=none",
+    });
+    out.count(&format!("prom.global-labels={}", globals.len()));
+}
+
+/// one `render()`: the text is read by the strict exposition reader; returns the line for the model comparison
+/// (`c/<key id>/<v>`, `g/…`, `h/<family>/<labels>/<count>+<sum>`) and, for the history oracle, what is shown per key
+fn prom_observe(
+    out: &mut Out,
+    text: &str,
+    pk: &PromKeys,
+    kinds: &[usize],
+    buckets: bool,
+) -> (String, BTreeMap<(usize, usize), (Option<u64>, String)>) {
+    let mut seen: BTreeMap<(usize, usize), (Option<u64>, String)> = BTreeMap::new();
+    let mut items: Vec<String> = vec![];
+    match expo::check_exposition(text) {
+        Err(e) => out.oracle_fail("render(): not well-formed exposition text", &format!("{} :: {:?}", e, text)),
+        Ok(fams) => {
+            for f in fams {
+                // series of this family: label text (without le / quantile) ↦ samples
+                let mut series: BTreeMap<String, Vec<(String, String)>> = BTreeMap::new();
+                for (sn, labels, v) in &f.samples {
+                    let own: Vec<(String, String)> = labels.iter().filter(|(k, _)| k != "le" && k != "quantile").cloned().collect();
+                    series.entry(label_text(&own)).or_default().push((sn.clone(), v.clone()));
                 }
-                oracle.register((*kind, kind * 4 + *i));
-                out.op(&format!("recency reg {} {}", KINDS[*kind], hexs(&keys[kind * 4 + *i])), "ok");
-                out.count("op.reg");
-            }
-            GOp::Upd(kind, i, up) => {
-                let key = Key::from_name(prom_name(*kind, *i));
-                match (kind, up) {
-                    (0, Upd::Inc(n)) => rec.register_counter(&key, &META).increment(*n),
-                    (0, Upd::Abs(n)) => rec.register_counter(&key, &META).absolute(*n),
-                    (1, Upd::Set(v)) => rec.register_gauge(&key, &META).set(*v as f64),
-                    (1, Upd::Add(v)) => {
-                        let g = rec.register_gauge(&key, &META);
-                        if *v >= 0 {
-                            g.increment(*v as f64)
-                        } else {
-                            g.decrement(-*v as f64)
+                for (lt, samples) in series {
+                    let find = |n: &str| samples.iter().find(|(sn, _)| sn == n).map(|x| x.1.clone());
+                    let j = pk.shown_as.iter().position(|(n, l)| *n == f.name && *l == lt);
+                    let kind = match f.ty.as_str() {
+                        "counter" => 0,
+                        "gauge" => 1,
+                        _ => 2,
+                    };
+                    let val = match kind {
+                        0 => find(&f.name).unwrap_or_else(|| "missing".into()),
+                        1 => find(&f.name).and_then(|v| v.parse::<f64>().ok()).map(gauge_tok).unwrap_or_else(|| "missing".into()),
+                        _ => {
+                            let cnt = find(&format!("{}_count", f.name)).unwrap_or_else(|| "missing".into());
+                            let sum = find(&format!("{}_sum", f.name))
+                                .and_then(|v| v.parse::<f64>().ok())
+                                .map(gauge_tok)
+                                .unwrap_or_else(|| "missing".into());
+                            format!("{}+{}", cnt, sum)
                         }
+                    };
+                    if kind == 2 {
+                        items.push(format!("h/{}/{}/{}", hexs(&f.name), hexs(&lt), val));
                     }
-                    (2, Upd::Rec(v)) => rec.register_histogram(&key, &META).record(*v as f64),
-                    _ => unreachable!(),
-                }
-                oracle.update((*kind, kind * 4 + *i), *up);
-                out.op(&format!("recency upd {} {} {}", KINDS[*kind], hexs(&keys[kind * 4 + *i]), up.tok()), "ok");
-                out.count("op.upd");
-            }
-            GOp::Adv(n) => {
-                mock.increment(*n);
-                oracle.now += *n;
-                out.op(&format!("recency adv {}", n), "ok");
-                out.count("op.adv");
-            }
-            GOp::Observe => {
-                observes += 1;
-                let text = handle.render();
-                let mut seen: BTreeMap<(usize, usize), (Option<u64>, String)> = BTreeMap::new();
-                match expo::check_exposition(&text) {
-                    Err(e) => out.oracle_fail("render(): not well-formed exposition text", &format!("{} :: {:?}", e, text)),
-                    Ok(fams) => {
-                        for f in fams {
-                            let Some(j) = keys.iter().position(|k| *k == f.name) else {
-                                out.oracle_fail("render(): a family nobody registered", &format!("{:?}", f.name));
-                                continue;
-                            };
-                            let kind = j / 4;
-                            let want_ty = match kind {
+                    match j {
+                        None => {
+                            out.oracle_fail(
+                                "render(): a series nobody registered (family name / label set of no key, global labels applied)",
+                                &format!("{} {{{}}} = {}", f.name, lt, val),
+                            );
+                            if kind != 2 {
+                                items.push(format!("{}/?{}/{}", KINDS[kind], hexs(&format!("{}{{{}}}", f.name, lt)), val));
+                            }
+                        }
+                        Some(j) => {
+                            let want_ty = match kinds[j] {
                                 0 => "counter",
                                 1 => "gauge",
                                 _ if buckets => "histogram",
@@ -697,29 +809,106 @@ fn run_prom_case(out: &mut Out, c: &Case, buckets: bool) {
                             if f.ty != want_ty {
                                 out.oracle_fail("render(): family has the wrong type", &format!("{} {} want {}", f.name, f.ty, want_ty));
                             }
-                            let find = |n: &str| f.samples.iter().find(|(sn, _, _)| sn == n).map(|x| x.2.clone());
-                            let val = match kind {
-                                0 => find(&f.name).unwrap_or_else(|| "missing".into()),
-                                1 => find(&f.name)
-                                    .and_then(|v| v.parse::<f64>().ok())
-                                    .map(gauge_tok)
-                                    .unwrap_or_else(|| "missing".into()),
-                                _ => {
-                                    let cnt = find(&format!("{}_count", f.name)).unwrap_or_else(|| "missing".into());
-                                    let sum = find(&format!("{}_sum", f.name))
-                                        .and_then(|v| v.parse::<f64>().ok())
-                                        .map(gauge_tok)
-                                        .unwrap_or_else(|| "missing".into());
-                                    format!("{}+{}", cnt, sum)
-                                }
-                            };
-                            seen.insert((kind, j), (None, val));
+                            if kind != 2 {
+                                items.push(format!("{}/{}/{}", KINDS[kind], hexs(&pk.ids[j]), val));
+                            }
+                            seen.insert((kinds[j], j), (None, val));
                         }
                     }
                 }
-                out.op("recency render", &fmt_seen(&seen, &keys));
+            }
+        }
+    }
+    items.sort();
+    (list(items), seen)
+}
+
+fn run_prom_case(out: &mut Out, c: &Case, buckets: bool, gsel: usize) {
+    let globals = GLOBALS[gsel % GLOBALS.len()];
+    let pool: Vec<(usize, String, Vec<(String, String)>)> = (0..12)
+        .map(|j| {
+            let (n, l) = prom_key(j / 4, j % 4);
+            (j / 4, n, l)
+        })
+        .collect();
+    let kinds: Vec<usize> = pool.iter().map(|p| p.0).collect();
+    let (clock, mock) = Clock::mock();
+    let mut b = PrometheusBuilder::new().idle_timeout(mask_of(c.mask), c.timeout.map(Duration::from_nanos));
+    for (k, v) in globals {
+        b = b.add_global_label(*k, *v);
+    }
+    if buckets {
+        b = b.set_buckets(&[0.0, 10.0]).unwrap();
+    }
+    let rec = b.verif_build_with_clock(clock);
+    let handle = rec.handle();
+    let mut oracle = Oracle::new(c.mask, c.timeout);
+    // `idle_timeout(mask, None)` stores mask NONE; for the model that is the same as "no timeout"
+    prom_model_new(out, c, globals);
+    let pk = prom_keys(out, &pool, globals);
+    out.count(if buckets { "prom.histogram" } else { "prom.summary" });
+    let mut observes = 0;
+    let drops_before = out.counters.get("oracle.dropped").cloned().unwrap_or(0);
+    for op in &c.ops {
+        match op {
+            GOp::Reg(kind, i) => {
+                let j = kind * 4 + *i;
+                let key = &pk.keys[j];
+                match kind {
+                    0 => drop(rec.register_counter(key, &META)),
+                    1 => drop(rec.register_gauge(key, &META)),
+                    _ => drop(rec.register_histogram(key, &META)),
+                }
+                oracle.register((*kind, j));
+                out.op(&format!("promidle reg {} {}", KINDS[*kind], hexs(&pk.ids[j])), "ok");
+                out.count("op.reg");
+            }
+            GOp::Upd(kind, i, up) => {
+                let j = kind * 4 + *i;
+                let key = &pk.keys[j];
+                match (kind, up) {
+                    (0, Upd::Inc(n)) => rec.register_counter(key, &META).increment(*n),
+                    (0, Upd::Abs(n)) => rec.register_counter(key, &META).absolute(*n),
+                    (1, Upd::Set(v)) => rec.register_gauge(key, &META).set(*v as f64),
+                    (1, Upd::Add(v)) => {
+                        let g = rec.register_gauge(key, &META);
+                        if *v >= 0 {
+                            g.increment(*v as f64)
+                        } else {
+                            g.decrement(-*v as f64)
+                        }
+                    }
+                    (2, Upd::Rec(v)) => rec.register_histogram(key, &META).record(*v as f64),
+                    (2, Upd::RecMany(v, n)) => rec.register_histogram(key, &META).record_many(*v as f64, *n),
+                    _ => unreachable!(),
+                }
+                oracle.update((*kind, j), *up);
+                if let Upd::RecMany(v, n) = up {
+                    out.op(&format!("promidle recmany {} {} {}", hexs(&pk.ids[j]), v, n), "ok");
+                    out.count(&format!("op.upd.record_many.n={}", n));
+                } else {
+                    out.op(&format!("promidle upd {} {} {}", KINDS[*kind], hexs(&pk.ids[j]), up.tok()), "ok");
+                }
+                out.count("op.upd");
+            }
+            GOp::Adv(n) => {
+                mock.increment(*n);
+                oracle.now += *n;
+                out.op(&format!("promidle adv {}", n), "ok");
+                out.count("op.adv");
+            }
+            GOp::Upkeep => {
+                handle.run_upkeep();
+                out.op("promidle upkeep", "ok");
+                out.count("op.upkeep");
+            }
+            GOp::Observe => {
+                observes += 1;
+                let text = handle.render();
+                let (line, seen) = prom_observe(out, &text, &pk, &kinds, buckets);
+                out.op("promidle render", &line);
                 out.count("op.render");
-                oracle.observe(&seen, &keys, out);
+                oracle.observe(&seen, &pk.ids, out);
             }
         }
     }
@@ -731,7 +920,145 @@ fn run_prom_case(out: &mut Out, c: &Case, buckets: bool) {
 
 /// stream B uses key indices 0..4 per kind
 fn gen_prom_case(r: &mut Rng) -> Case {
-    gen_case(r, 4, &[0, 1, 2])
+    gen_case_w(r, 4, &[0, 1, 2], 1)
+}
+
+/// hand-picked exporter histories (run under every global-label choice, both histogram modes)
+fn prom_corpus() -> Vec<Case> {
+    use GOp::{Adv, Observe, Reg, Upkeep};
+    vec![
+        // an idle histogram leaves the OUTPUT too, and comes back from zero (with global labels the distribution
+        // is stored under the label set that includes them: the removal must look it up the same way)
+        Case { mask: 7, timeout: Some(2), ops: vec![u(2, 0, Upd::Rec(5)), u(2, 0, Upd::Rec(6)), Observe, Adv(3), Observe, Observe, u(2, 0, Upd::Rec(1)), Observe, Adv(3), Observe] },
+        // two series of one family: one expires, the other stays; then the family disappears altogether
+        Case { mask: 4, timeout: Some(10), ops: vec![u(2, 1, Upd::Rec(1)), u(2, 2, Upd::Rec(2)), Observe, Adv(6), u(2, 2, Upd::Rec(3)), Observe, Adv(6), Observe, Adv(11), Observe, u(2, 1, Upd::Rec(4)), Observe] },
+        // a key label that overrides a global label
+        Case { mask: 7, timeout: Some(10), ops: vec![u(2, 3, Upd::Rec(7)), u(0, 3, Upd::Inc(1)), u(1, 3, Upd::Set(2)), Observe, Adv(11), Observe, u(2, 3, Upd::Rec(1)), Observe] },
+        // record_many: n records are n updates, zero records are none
+        Case { mask: 7, timeout: Some(10), ops: vec![u(2, 0, Upd::RecMany(2, 3)), Observe, Adv(11), u(2, 0, Upd::RecMany(5, 1)), Observe, Adv(11), u(2, 0, Upd::RecMany(9, 0)), Observe, Observe] },
+        // samples drained by upkeep before the metric expires; upkeep between expiry and re-registration
+        Case { mask: 7, timeout: Some(10), ops: vec![u(2, 0, Upd::Rec(5)), Upkeep, Observe, u(2, 0, Upd::Rec(6)), Upkeep, Adv(11), Observe, Adv(11), Observe, Upkeep, Reg(2, 0), Upkeep, Observe, u(2, 0, Upd::Rec(1)), Observe] },
+        // histograms outside the mask stay in the output for ever
+        Case { mask: 3, timeout: Some(1), ops: vec![u(2, 1, Upd::Rec(5)), u(0, 1, Upd::Inc(1)), Observe, Adv(5), Observe, Adv(5), Observe] },
+    ]
+}
+
+/// FINDING (reported, see REPORT.md): `distributions` is keyed by the SANITISED name, so two histograms whose names
+/// differ only in characters that sanitising maps to `_` share one distribution; when one of them expires the
+/// shared distribution is deleted although the other one is alive and was just updated — its samples are gone.
+/// The model predicts exactly that (`C12.prom_collision_wipes_live`); here the real exporter is compared with it.
+fn run_prom_collision(out: &mut Out, gsel: usize) {
+    let globals = GLOBALS[gsel % GLOBALS.len()];
+    let pool: Vec<(usize, String, Vec<(String, String)>)> = vec![(2, "hst.x".to_string(), vec![]), (2, "hst_x".to_string(), vec![])];
+    let (clock, mock) = Clock::mock();
+    let mut b = PrometheusBuilder::new().idle_timeout(mask_of(4), Some(Duration::from_nanos(2)));
+    for (k, v) in globals {
+        b = b.add_global_label(*k, *v);
+    }
+    let rec = b.verif_build_with_clock(clock);
+    let handle = rec.handle();
+    let c = Case { mask: 4, timeout: Some(2), ops: vec![] };
+    prom_model_new(out, &c, globals);
+    let pk = prom_keys(out, &pool, globals);
+    let mut shown: Vec<String> = vec![];
+    let rec_one = |out: &mut Out, j: usize, v: i64| {
+        rec.register_histogram(&pk.keys[j], &META).record(v as f64);
+        out.op(&format!("promidle upd h {} rec:{}", hexs(&pk.ids[j]), v), "ok");
+    };
+    let mut render = |out: &mut Out| {
+        let text = handle.render();
+        // both keys are rendered under the same family / label set: compare the raw series with the model only
+        let mut items: Vec<String> = vec![];
+        if let Ok(fams) = expo::check_exposition(&text) {
+            for f in fams {
+                let find = |n: &str| f.samples.iter().find(|(sn, _, _)| sn == n);
+                if let (Some(cnt), Some(sum)) = (find(&format!("{}_count", f.name)), find(&format!("{}_sum", f.name))) {
+                    let own: Vec<(String, String)> = cnt.1.iter().filter(|(k, _)| k != "le" && k != "quantile").cloned().collect();
+                    items.push(format!("h/{}/{}/{}+{}", hexs(&f.name), hexs(&label_text(&own)), cnt.2, sum.2.parse::<f64>().map(gauge_tok).unwrap_or("missing".into())));
+                }
+            }
+        }
+        items.sort();
+        let line = list(items);
+        out.op("promidle render", &line);
+        shown.push(line);
+    };
+    rec_one(out, 0, 7);
+    rec_one(out, 1, 5);
+    render(out);
+    mock.increment(3);
+    out.op("promidle adv 3", "ok");
+    rec_one(out, 1, 1); // hst_x is alive and updated; hst.x is idle
+    render(out);
+    rec_one(out, 1, 2);
+    render(out);
+    // hst_x recorded 5, 1, 2 and was never idle: its full value is 3 samples, sum 8
+    let last = shown.last().cloned().unwrap_or_default();
+    if last.ends_with("/3+8") {
+        out.count("finding.sanitised-name-collision: not reproduced (live histogram shows its full value)");
+    } else {
+        out.count("finding.sanitised-name-collision: reproduced (expiry of hst.x wiped the samples of the live hst_x)");
+        out.oracle_fail(
+            "K-C12-collision: expiry of one histogram wiped the shared distribution of a live histogram whose name sanitises to the same family",
+            &format!("globals {:?}: record hst.x 7; record hst_x 5; render; advance 3; record hst_x 1; render; record hst_x 2; render -> last render shows {} (full value is 3 samples, sum 8)", globals, last),
+        );
+    }
+}
+
+/// the production constructor (`build_recorder`, real `quanta` clock): the idle timeout and the mask given to the
+/// builder must reach `Recency`.  Only two timeouts are used: 1 ns with a 3 ms sleep between renders (elapsed time
+/// is certainly larger), and one hour (certainly not reached).  Oracle only — there is no mock clock to step.
+fn run_production(out: &mut Out) {
+    type Cfgf = fn(PrometheusBuilder) -> PrometheusBuilder;
+    let tiny = Some(Duration::from_nanos(1));
+    let hour = Some(Duration::from_secs(3600));
+    // (what, builder calls, expected survivors [counter, gauge, histogram])
+    let cases: Vec<(&str, Box<dyn Fn(PrometheusBuilder) -> PrometheusBuilder>, [bool; 3])> = vec![
+        ("no idle_timeout call", Box::new(|b| b), [true, true, true]),
+        ("idle_timeout(ALL, 1ns)", Box::new(move |b| b.idle_timeout(MetricKindMask::ALL, tiny)), [false, false, false]),
+        ("idle_timeout(COUNTER, 1ns)", Box::new(move |b| b.idle_timeout(MetricKindMask::COUNTER, tiny)), [false, true, true]),
+        ("idle_timeout(GAUGE|HISTOGRAM, 1ns)", Box::new(move |b| b.idle_timeout(MetricKindMask::GAUGE | MetricKindMask::HISTOGRAM, tiny)), [true, false, false]),
+        ("idle_timeout(ALL, 1h)", Box::new(move |b| b.idle_timeout(MetricKindMask::ALL, hour)), [true, true, true]),
+        ("idle_timeout(ALL, None)", Box::new(|b| b.idle_timeout(MetricKindMask::ALL, None)), [true, true, true]),
+        ("idle_timeout(ALL, 1ns) then idle_timeout(ALL, None)", Box::new(move |b| b.idle_timeout(MetricKindMask::ALL, tiny).idle_timeout(MetricKindMask::ALL, None)), [true, true, true]),
+        ("idle_timeout(ALL, None) then idle_timeout(GAUGE, 1ns)", Box::new(move |b| b.idle_timeout(MetricKindMask::ALL, None).idle_timeout(MetricKindMask::GAUGE, tiny)), [true, false, true]),
+        ("idle_timeout(ALL, 1ns) then idle_timeout(HISTOGRAM, 1h)", Box::new(move |b| b.idle_timeout(MetricKindMask::ALL, tiny).idle_timeout(MetricKindMask::HISTOGRAM, hour)), [true, true, true]),
+        ("idle_timeout(ALL, 1ns) + global label", Box::new(move |b| b.add_global_label("env", "prod").idle_timeout(MetricKindMask::ALL, tiny)), [false, false, false]),
+    ];
+    let _: Option<Cfgf> = None;
+    for (what, f, want) in cases {
+        out.case(&format!("production constructor: {}", what));
+        let rec = f(PrometheusBuilder::new()).build_recorder();
+        let handle = rec.handle();
+        let names = ["pc_ctr", "pc_gge", "pc_hst"];
+        rec.register_counter(&Key::from_name(names[0]), &META).increment(3);
+        rec.register_gauge(&Key::from_name(names[1]), &META).set(4.0);
+        rec.register_histogram(&Key::from_name(names[2]), &META).record(5.0);
+        let present = |text: &str| -> [bool; 3] {
+            let fams = expo::check_exposition(text).unwrap_or_default();
+            let has = |n: &str| fams.iter().any(|f| f.name == n);
+            [has(names[0]), has(names[1]), has(names[2])]
+        };
+        let first = present(&handle.render());
+        std::thread::sleep(Duration::from_millis(3));
+        let second = present(&handle.render());
+        std::thread::sleep(Duration::from_millis(3));
+        let third = present(&handle.render());
+        out.count("production.build_recorder");
+        if first != [true, true, true] {
+            out.oracle_fail("build_recorder(): a freshly updated metric is missing from the first render", &format!("{} -> {:?}", what, first));
+        }
+        // the first render stores the generation; the second one (≥ 3 ms later, unchanged) decides
+        if second != want || third != want {
+            out.oracle_fail(
+                "build_recorder(): the idle timeout / mask given to the builder is not what the recorder applies",
+                &format!("{}: counter/gauge/histogram idle for 3 ms, shown {:?} then {:?}, expected {:?}", what, second, third, want),
+            );
+        }
+        if want != [true, true, true] {
+            out.nontrivial();
+        }
+    }
 }
 
 pub fn run(cfg: &Cfg, out: &mut Out) {
@@ -741,8 +1068,19 @@ pub fn run(cfg: &Cfg, out: &mut Out) {
         out.case(&format!("corpus={} stream=A", n));
         run_registry_case(out, c);
         out.case(&format!("corpus={} stream=B", n));
-        run_prom_case(out, c, n % 2 == 0);
+        run_prom_case(out, c, n % 2 == 0, n / 2);
     }
+    for (n, c) in prom_corpus().iter().enumerate() {
+        for g in 0..GLOBALS.len() {
+            out.case(&format!("prom-corpus={} globals={} stream=B", n, g));
+            run_prom_case(out, c, (n + g) % 2 == 0, g);
+        }
+    }
+    for g in 0..GLOBALS.len() {
+        out.case(&format!("prom-collision globals={} stream=B", g));
+        run_prom_collision(out, g);
+    }
+    run_production(out);
     if cfg.thorough {
         // small-scope exhaustive: every history of 6 ops over a 6-letter alphabet (+ a final observation),
         // timeout 2 so that advances of 1 and 2 ticks reach T-1, T, T+1 and 2T; counter and gauge share the key
@@ -782,7 +1120,9 @@ pub fn run(cfg: &Cfg, out: &mut Out) {
             let c = gen_prom_case(&mut r);
             out.case(&format!("seed={} i={} stream=B", cfg.seed, i));
             let buckets = r.chance(1, 2);
-            run_prom_case(out, &c, buckets);
+            // global labels in 3 of 4 exporter cases
+            let gsel = r.below(GLOBALS.len());
+            run_prom_case(out, &c, buckets, gsel);
         }
     }
 }
@@ -800,7 +1140,7 @@ pub fn run(cfg: &Cfg, out: &mut Out) {
 // Oracle from the property's wording: a metric may only be dropped when its last shown value is its true value
 // (otherwise an update made since the previous observation was discarded), a kept metric shows its true value, and
 // an idle metric is gone one timeout later.
-fn conc_execute(kind: usize, upds: &[usize], renders: usize, schedule: &[usize]) -> (crate::sched::RunResult, Vec<Option<u64>>, Option<u64>, Option<u64>, Option<u64>) {
+fn conc_execute(kind: usize, variant: usize, upds: &[usize], renders: usize, schedule: &[usize]) -> (crate::sched::RunResult, Vec<Option<u64>>, Option<u64>, Option<u64>, Option<u64>) {
     use std::sync::Mutex;
     let (clock, mock) = Clock::mock();
     let rec = Arc::new(PrometheusBuilder::new().idle_timeout(mask_of(7), Some(Duration::from_nanos(10))).verif_build_with_clock(clock));
@@ -824,10 +1164,15 @@ fn conc_execute(kind: usize, upds: &[usize], renders: usize, schedule: &[usize])
         let h = mk();
         let k = *k;
         bodies.push(Box::new(move || {
-            for _ in 0..k {
-                match &h {
-                    H::C(c) => c.increment(1),
-                    H::G(g) => g.increment(1.0),
+            // variant 0: increment; 1 (single updater only): absolute / set to the running count; 2 (gauge): decrement(-1).
+            // Every update method must go through `with_increment` (value first, generation bump second).
+            for j in 0..k {
+                match (&h, variant) {
+                    (H::C(c), 1) => c.absolute(j as u64 + 1),
+                    (H::C(c), _) => c.increment(1),
+                    (H::G(g), 1) => g.set(j as f64 + 1.0),
+                    (H::G(g), 2) => g.decrement(-1.0),
+                    (H::G(g), _) => g.increment(1.0),
                 }
             }
         }));
@@ -856,8 +1201,8 @@ fn conc_execute(kind: usize, upds: &[usize], renders: usize, schedule: &[usize])
     (run, vals, first, r3, r4)
 }
 
-fn conc_one(out: &mut Out, kind: usize, upds: &[usize], renders: usize, schedule: &[usize]) -> crate::sched::RunResult {
-    let (run, vals, first, r3, r4) = conc_execute(kind, upds, renders, schedule);
+fn conc_one(out: &mut Out, kind: usize, variant: usize, upds: &[usize], renders: usize, schedule: &[usize]) -> crate::sched::RunResult {
+    let (run, vals, first, r3, r4) = conc_execute(kind, variant, upds, renders, schedule);
     let total: u64 = upds.iter().map(|k| *k as u64).sum();
     let labels: Vec<&str> = run.trace.iter().map(|(_, id)| *id).collect();
     let taken: Vec<usize> = run.trace.iter().map(|(t, _)| *t).collect();
@@ -867,6 +1212,16 @@ fn conc_one(out: &mut Out, kind: usize, upds: &[usize], renders: usize, schedule
         &format!("{} | {} | final={} kept={}", labels.join("."), fmt_vals(&vals), total, if r3.is_some() { 1 } else { 0 }),
     );
     out.count(&format!("concurrent.kind={}", if kind == 0 { "counter" } else { "gauge" }));
+    out.count(&format!(
+        "concurrent.method={}",
+        match (kind, variant) {
+            (0, 1) => "Counter::absolute",
+            (0, _) => "Counter::increment",
+            (_, 1) => "Gauge::set",
+            (_, 2) => "Gauge::decrement",
+            _ => "Gauge::increment",
+        }
+    ));
     if run.deadlock || run.timed_out || !run.panicked.is_empty() {
         out.oracle_fail("updates racing render: deadlock, timeout or panic", &format!("{:?}", run.trace));
         return run;
@@ -884,8 +1239,8 @@ fn conc_one(out: &mut Out, kind: usize, upds: &[usize], renders: usize, schedule
         }
     }
     let ctx = || format!(
-        "kind={} updates per thread {:?}, {} render(s) while they run; grants {:?}; render before = {:?}, renders during = {:?}, render after timeout = {:?}, one more timeout later = {:?}; true final value {}",
-        if kind == 0 { "counter" } else { "gauge" }, upds, renders, run.trace, first, vals, r3, r4, total
+        "kind={} method variant {} (0 increment, 1 absolute/set, 2 decrement(-1)), updates per thread {:?}, {} render(s) while they run; grants {:?}; render before = {:?}, renders during = {:?}, render after timeout = {:?}, one more timeout later = {:?}; true final value {}",
+        if kind == 0 { "counter" } else { "gauge" }, variant, upds, renders, run.trace, first, vals, r3, r4, total
     );
     if first != Some(0) {
         out.oracle_fail("a registered metric is not shown by the first render", &ctx());
@@ -913,27 +1268,39 @@ fn conc_one(out: &mut Out, kind: usize, upds: &[usize], renders: usize, schedule
 }
 
 pub fn run_concurrent(cfg: &Cfg, out: &mut Out) {
-    let mut configs: Vec<(usize, Vec<usize>, usize)> = vec![];
+    let mut base: Vec<(usize, Vec<usize>, usize)> = vec![];
     for kind in [0usize, 1] {
-        configs.push((kind, vec![1], 1));
-        configs.push((kind, vec![2], 1));
-        configs.push((kind, vec![1, 1], 1));
-        configs.push((kind, vec![1], 2));
+        base.push((kind, vec![1], 1));
+        base.push((kind, vec![2], 1));
+        base.push((kind, vec![1, 1], 1));
+        base.push((kind, vec![1], 2));
     }
     if cfg.thorough {
         for kind in [0usize, 1] {
-            configs.push((kind, vec![2], 2));
-            configs.push((kind, vec![2, 1], 2));
-            configs.push((kind, vec![1, 1, 1], 1));
-            configs.push((kind, vec![3], 3));
+            base.push((kind, vec![2], 2));
+            base.push((kind, vec![2, 1], 2));
+            base.push((kind, vec![1, 1, 1], 1));
+            base.push((kind, vec![3], 3));
         }
     }
-    for (kind, upds, renders) in configs {
+    // every update method, not only `increment`: absolute / set need a single updater (their argument is the
+    // running count), decrement(-1) commutes like increment
+    let mut configs: Vec<(usize, usize, Vec<usize>, usize)> = vec![];
+    for (kind, upds, renders) in base {
+        configs.push((kind, 0, upds.clone(), renders));
+        if upds.len() == 1 {
+            configs.push((kind, 1, upds.clone(), renders));
+        }
+        if kind == 1 {
+            configs.push((kind, 2, upds.clone(), renders));
+        }
+    }
+    for (kind, variant, upds, renders) in configs {
         let mut prefix: Vec<usize> = vec![];
         let mut runs = 0usize;
         loop {
-            out.case(&format!("concurrent exhaustive kind={} upds={:?} renders={} run={}", kind, upds, renders, runs));
-            let run = conc_one(out, kind, &upds, renders, &prefix);
+            out.case(&format!("concurrent exhaustive kind={} method={} upds={:?} renders={} run={}", kind, variant, upds, renders, runs));
+            let run = conc_one(out, kind, variant, &upds, renders, &prefix);
             runs += 1;
             if runs >= 3000 {
                 out.count("concurrent.enumeration capped");
